@@ -280,7 +280,7 @@ def win_suite(ctx, vh, args):
 def run(ctx):
     q = ctx.quick
     ctx.rule = ("admission: every accept/reject vector (accept, error, string, structured data) for chains of 0..%d namespace "
-                "middlewares x 3 join patterns x {/, /chat}, 8 concurrent raw-protocol sessions and again one at a time, "
+                "middlewares x 2-3 join patterns x {/, /chat}, 8 concurrent raw-protocol sessions and again (shorter chains) one at a time, "
                 "several rejected CONNECTs then an accepted one per Engine.IO connection; plus a sample through the Go client; "
                 "forced windows: socket A parked in middleware g (every g, every chain of <=%d reaching g) while B is admitted/refused and "
                 "broadcasts are sent. "
@@ -299,8 +299,8 @@ def run(ctx):
     if vh is None:
         return
     k = 3 if q else 5
-    adm_suite(ctx, vh, "raw-conc8", ["-mode", "adm", "-maxlen", k, "-conc", 8, "-seed", ctx.seed])
-    adm_suite(ctx, vh, "raw-seq", ["-mode", "adm", "-maxlen", 2 if q else 4, "-conc", 1, "-seed", ctx.seed + 1])
+    adm_suite(ctx, vh, "raw-conc8", ["-mode", "adm", "-maxlen", k, "-conc", 8, "-seed", ctx.seed, "-joinvariants", 3 if q else 2])
+    adm_suite(ctx, vh, "raw-seq", ["-mode", "adm", "-maxlen", 2 if q else 3, "-conc", 1, "-seed", ctx.seed + 1])
     adm_suite(ctx, vh, "goclient", ["-mode", "admgo", "-maxlen", k, "-n", 12 if q else 64, "-seed", ctx.seed + 2])
     win_suite(ctx, vh, ["-mode", "win", "-maxlen", 2 if q else 3, "-seed", ctx.seed + 4])
     ev_suite(ctx, vh, ["-mode", "ev", "-maxlen", 2 if q else 3, "-seed", ctx.seed + 3])
